@@ -54,3 +54,32 @@ Theorem C04_builtin_call_positions :
                               list_eqb Nat.eqb b [2 * n - 2] && list_eqb Nat.eqb s [2 * n - 2]
                     | Err _ => false end) (seq 5 12) = true.
 Proof. exact grandsire_calls. Qed.
+
+From Wh Require Import DixonP.
+(* rule-driven generators (Dixon's Bob and its relatives): a pending call acts at the next lead of a bell it is
+   defined for, with its notation for that stroke; it stays pending over the handstroke change and is used up by the
+   backstroke change; where it is not defined it alters nothing and stays pending *)
+Theorem C04_dixon_bob_fires : forall plain bob single stage prev st leading,
+  nth_res prev 0 = Ok leading -> forall rule, dict_get Nat.eqb bob leading = Some rule ->
+  forall hs : bool, dixon_gen_row plain bob single stage prev st true hs
+  = do r <- permute stage (pick st rule) prev ;; Ok (r, if st then (true, hs) else (false, false)).
+Proof. exact dixon_bob_fires. Qed.
+Theorem C04_dixon_single_fires : forall plain bob single stage prev st leading,
+  nth_res prev 0 = Ok leading -> forall rule, dict_get Nat.eqb single leading = Some rule ->
+  forall hb : bool, (if hb then dict_get Nat.eqb bob leading else None) = None ->
+  dixon_gen_row plain bob single stage prev st hb true
+  = do r <- permute stage (pick st rule) prev ;; Ok (r, if st then (hb, true) else (false, false)).
+Proof. exact dixon_single_fires. Qed.
+Theorem C04_dixon_call_waits : forall plain bob single stage prev st leading,
+  nth_res prev 0 = Ok leading -> forall hb hs : bool,
+  (if hb then dict_get Nat.eqb bob leading else None) = None ->
+  (if hs then dict_get Nat.eqb single leading else None) = None ->
+  dixon_gen_row plain bob single stage prev st hb hs
+  = match dict_get Nat.eqb plain leading with
+    | Some rule => do r <- permute stage (pick st rule) prev ;; Ok (r, (hb, hs))
+    | None => match dict_get Nat.eqb plain 0 with
+              | Some rule => do r <- permute stage (pick st rule) prev ;; Ok (r, (hb, hs))
+              | None => Err EKey
+              end
+    end.
+Proof. exact dixon_call_waits. Qed.
